@@ -16,11 +16,29 @@ NS_WRAPS = ["coap_socket_bind_udp", "coap_socket_connect_udp", "coap_socket_send
             "coap_socket_connect_tcp2"]
 NETSIM = ["vx/vx.c", "harness/netsim.c"]
 
-# property -> list of harness stages; each stage is one executable
-REG = {
-    "C06": [dict(name="c06", variant="asan", srcs=NETSIM + ["harness/c06_retx.c"], wraps=NS_WRAPS,
-                 quick=55, thorough=600)],
-}
+# property -> list of harness stages (one executable each), loaded from /verif/reg/<Cxx>.json
+# stage keys: name, variant, srcs, wraps ("NS" expands to the netsim wrap list), libs, defines, cflags, quick, thorough (budgets, s)
+def load_reg():
+    reg = {}
+    d = os.path.join(VERIF, "reg")
+    for fn in sorted(os.listdir(d)):
+        if not fn.endswith(".json"):
+            continue
+        with open(os.path.join(d, fn)) as f:
+            doc = json.load(f)
+        stages = []
+        for st in doc["stages"]:
+            st = dict(st)
+            w = []
+            for x in st.get("wraps", []):
+                w += NS_WRAPS if x == "NS" else [x]
+            st["wraps"] = w
+            stages.append(st)
+        reg[doc["property_id"]] = stages
+    return reg
+
+
+REG = load_reg()
 
 
 def load_known():
